@@ -181,7 +181,7 @@ def replay(case):
 
 def main(tier, seed, t0):
     quick = tier == "quick"
-    col = core.run_shards(worker, [(seed * 1000 + 1400 + k, 250 if quick else 5000) for k in range(16)])
+    col = core.run_shards(worker, [(seed * 1000 + 1400 + k, 1000 if quick else 10000) for k in range(16)])
     need = ["op:" + o for o in R.OPS] + ["status:OK", "status:NO", "status:BYE", "code:none", "code:atom", "code:param",
                                           "text:none", "text:quoted", "text:literal", "multistep:emulated-rename", "multistep:starttls"]
     missing = [c for c in need if not col.classes.get(c)]
